@@ -162,7 +162,8 @@ fn node(ctx: &mut E3Ctx, gs: &GameState, gold: bool, k: usize, left: &mut [u8; 6
             _ => continue,
         };
         let t_idx = piece_strength(p) as usize;
-        if left[t_idx] == 0 {
+        let over_complement = left[t_idx] == 0;
+        if over_complement && ctx.on(C09) {
             continue; // already reported above under C09; do not descend
         }
         if ctx.on(C13) {
@@ -218,7 +219,10 @@ fn node(ctx: &mut E3Ctx, gs: &GameState, gold: bool, k: usize, left: &mut [u8; 6
         if starts_play {
             leaf(ctx, &t, a);
         } else if depth + 1 <= ctx.max_depth {
-            left[t_idx] -= 1;
+            // (an offered placement beyond the complement is followed too: it leads to a reachable state)
+            if !over_complement {
+                left[t_idx] -= 1;
+            }
             ctx.path.push(*a);
             if last_of_side {
                 let mut nl = COMPLEMENT;
@@ -227,7 +231,9 @@ fn node(ctx: &mut E3Ctx, gs: &GameState, gold: bool, k: usize, left: &mut [u8; 6
                 node(ctx, &t, ngold, nk, left, depth + 1);
             }
             ctx.path.pop();
-            left[t_idx] += 1;
+            if !over_complement {
+                left[t_idx] += 1;
+            }
         }
     }
     if ctx.on(C18) && fingerprint(gs) != fp {
@@ -240,8 +246,8 @@ fn leaf(ctx: &mut E3Ctx, t: &GameState, via: &Action) {
     if ctx.on(C08) || ctx.on(C09) {
         if let Some(pp) = t.as_play_phase() {
             let scratch = Zobrist::from_piece_board(t.piece_board(), true, 0);
-            if t.transposition_hash() != scratch.board_state_hash() || pp.hash_history().head() != Some(&scratch) || pp.hash_history().len() != 1 {
-                ctx.fail(Some(via), "C08: a finished setup does not hash like the same position built from scratch / its history does not start with that hash", format!("{:016x}", t.transposition_hash()), format!("{:016x}", scratch.board_state_hash()));
+            if t.transposition_hash() != scratch.board_state_hash() || pp.hash_history().iter().any(|z| *z != scratch) {
+                ctx.fail(Some(via), "C08: a finished setup does not hash like the same position built from scratch / a recorded start-of-turn hash is not the hash of the only position played so far", format!("{:016x}", t.transposition_hash()), format!("{:016x}", scratch.board_state_hash()));
             }
         }
     }
